@@ -470,8 +470,14 @@ def run(ctx) -> list[Inst]:
         # ---------------------------------------------------------------- (e) memo protocol
         has_lookup = has_store = False
         tested = returned = False
+        from_get = {a.targets[0].id for a in own_nodes(f.node) if isinstance(a, ast.Assign) and len(a.targets) == 1
+                    and isinstance(a.targets[0], ast.Name) and isinstance(a.value, ast.Call)
+                    and isinstance(a.value.func, ast.Attribute) and a.value.func.attr == 'get'
+                    and isinstance(a.value.func.value, ast.Name) and a.value.func.value.id == memon}
         for n in own_nodes(f.node):
             if isinstance(n, (ast.If, ast.IfExp)):
+                if any(isinstance(t, ast.Name) and t.id in from_get for t in ast.walk(n.test)):
+                    tested = True       # `hit = memo.get(id(self), sentinel); if hit is not sentinel: return hit`
                 for t in ast.walk(n.test):
                     # `id(self) in memo` / `id(self) not in memo` / `memo.get(id(self))`
                     if isinstance(t, ast.Compare) and isinstance(t.ops[0], (ast.In, ast.NotIn)) \
